@@ -114,13 +114,14 @@ func (eng *Engine) verifyFunc(fn *ssa.Function, props []string) (fc *FnCtx, err 
 				}
 				fr.panicsWhenOld = append(fr.panicsWhenOld, fc.define("pw", "Bool", t))
 			}
+			fr.evalNoPanicWhen(spec, env) // ext_nopanic.go
 		}
 		if os.Getenv("GOVC_NOFRAME") == "" {
 			fr.computeFrame(st)
 		}
 		// trusted axioms (facts about dependencies' globals, e.g. io.EOF != nil) hold in the entry state
 		for _, ax := range eng.contracts.Axioms {
-			if !axiomRelevant(ax, fn) {
+			if !axiomRelevant(ax, fn) || !axiomInScope(ax, props) || !fc.axiomWhen(ax, fn, pass) { // axiomInScope: ext_lemma_axioms.go; axiomWhen: ext_kviter.go
 				continue
 			}
 			aenv := &SpecEnv{fc: fc, vars: map[string]SV{}, cur: st, old: st, pkg: eng.pkgOfSpec(&FuncSpec{Pkg: ax.Pkg})}
@@ -161,6 +162,10 @@ func (eng *Engine) verifyFunc(fn *ssa.Function, props []string) (fc *FnCtx, err 
 				}
 			}
 		}
+		if spec != nil && pass == 1 {
+			fr.checkLineHintAnchors()
+		}
+		noteLeftOutClauses(fc, spec) // ext_propfilter.go: the evidence lists every clause that `check Cxx` left out
 		if spec != nil {
 			for i, h := range spec.Hints {
 				if e := fr.hintErr[i]; e != nil && !fr.hintOK[i] && clauseActive(h.Clause) {
@@ -184,8 +189,14 @@ func (fc *FnCtx) preamble() string {
 	for _, k := range keys {
 		fmt.Fprintf(&b, "(declare-const %s %s)\n", compInit(k), fc.comps[k])
 	}
+	// all declarations first (an axiom of one uninterpreted function may mention another one, or a string constant)
 	for _, u := range fc.ufList {
 		fmt.Fprintf(&b, "(declare-fun %s %s)\n", u, fc.ufs[u])
+	}
+	for _, d := range fc.tc.extraDecls {
+		b.WriteString(d + "\n")
+	}
+	for _, u := range fc.ufList {
 		if ax := fc.ufAxioms[u]; ax != "" {
 			b.WriteString(ax + "\n")
 		}
@@ -194,12 +205,11 @@ func (fc *FnCtx) preamble() string {
 			fmt.Fprintf(&b, "(assert (forall ((b (Array Int Int)) (o Int) (n Int)) (! (>= (%s b o n) 1) :pattern ((%s b o n)))))\n", u, u)
 		}
 	}
-	for _, d := range fc.tc.extraDecls {
-		b.WriteString(d + "\n")
-	}
+	b.WriteString(fc.kvIdAxiom()) // ext_kviter.go: one numbering of byte strings for keys and values
 	if d := fc.tc.strDistinct(); d != "" {
 		b.WriteString(d + "\n")
 	}
+	b.WriteString(fc.algebraAxioms()) // ext_bytesalgebra.go: only when blen/sub/strseq are used
 	return b.String()
 }
 
@@ -238,7 +248,10 @@ func (eng *Engine) lemmaCtx(l *Lemma) (fc *FnCtx, err error) {
 		}
 		fc.assume("true", t)
 	}
-	eng.extLemmaAfterRequires(fc, env, l)
+	if e := eng.assumeLemmaAxioms(fc, st, l); e != nil { // ext_lemma_axioms.go
+		return nil, fmt.Errorf("contract-stale: lemma %s: axiom: %v", l.Name, e)
+	}
+	eng.extLemmaAfterRequires(fc, env, l) // ext_induct.go
 	cov := &Obligation{Name: "lemma:" + l.Name + "#cover", Kind: "cover", Func: "lemma:" + l.Name, Guard: "true", Cond: "false", Cover: true}
 	fc.script = append(fc.script, Item{ob: cov})
 	fc.obls = append(fc.obls, cov)
